@@ -113,8 +113,7 @@ func encode(in reflect.Value) (any, error) {
 		return ret, nil
 	case reflect.Slice:
 		if typ.Elem().Kind() == reflect.Uint8 {
-			bytes := in.Interface().([]byte)
-			return b64.EncodeToString(bytes), nil
+			return b64.EncodeToString(in.Bytes()), nil
 		}
 		ret := make([]any, in.Len())
 		for i := range ret {
